@@ -165,7 +165,24 @@ func fForm(i, n int) (string, *openfgav1.Userset, []*openfgav1.RelationReference
 			singles += len(menu) * len(ops)
 		}
 	}
-	c := zzverif.Choose(tag, forms+singles)
+	// DUPTHIS<i>=1: also `leaf op leaf` for the direct-assignment leaves: the direct assignment written twice under one
+	// operator (both occurrences share the relation's restrictions; JSON only)
+	var thisMenu []fLeaf
+	if zzverif.Param(fmt.Sprintf("DUPTHIS%d", i), 0) == 1 {
+		for _, l := range menu {
+			if l.u.GetThis() != nil {
+				thisMenu = append(thisMenu, l)
+			}
+		}
+	}
+	dups := len(thisMenu) * len(ops)
+	c := zzverif.Choose(tag, forms+singles+dups)
+	if c >= forms+singles {
+		c -= forms + singles
+		l := thisMenu[c/len(ops)]
+		op := ops[c%len(ops)]
+		return l.text + fOpNames[op] + l.text, fOp(op, fThis(), fThis()), l.restr
+	}
 	if c >= forms {
 		c -= forms
 		one := func(op int, u *openfgav1.Userset) *openfgav1.Userset {
